@@ -7,6 +7,7 @@ import verde as vd
 from hypothesis import strategies as st
 
 from vlib import blocks, gen, kernels
+from vlib import build as vbuild
 from vlib.oracles import EPS
 from vlib.runner import Sub, Violation
 
@@ -43,15 +44,17 @@ def base_cases(draw, ncomp=1, min_n=3, max_n=30):
     damping = draw(st.one_of(st.none(), gen.log_uniform(-8, 2)))
     m = draw(st.integers(1, 8))
     query = [[draw(gen.finite(-1, cloud["side"] + 1)), draw(gen.finite(-1, cloud["side"] + 1))] for _ in range(m)]
-    return dict(cloud=cloud, data=data, weights=weights, damping=damping, query=query, shape=draw(st.sampled_from(blocks.shape_options(n))))
+    return dict(cloud=cloud, data=data, weights=weights, damping=damping, query=query, shape=draw(st.sampled_from(blocks.shape_options(n))),
+                orders=draw(vbuild.orders_strategy()))
 
 
 def arrays(case):
     es, ns = gen.cloud_xy(case["cloud"])
     shape = case["shape"]
-    e, n = np.array(es).reshape(shape), np.array(ns).reshape(shape)
-    data = [np.array(d).reshape(shape) for d in case["data"]]
-    weights = None if case["weights"] is None else [np.array(w).reshape(shape) for w in case["weights"]]
+    lay = vbuild.Lay(case.get("orders"))
+    e, n = lay(es, shape), lay(ns, shape)
+    data = [lay(d, shape) for d in case["data"]]
+    weights = None if case["weights"] is None else [lay(w, shape) for w in case["weights"]]
     qe, qn = gen.cloud_query(case["cloud"], case["query"])
     return e, n, data, weights, np.array(qe), np.array(qn)
 
@@ -239,7 +242,7 @@ def check_meta(case, ctx):
     if cond <= 100:
         i = case["outlier_index"]
         dmax = float(np.max(np.abs(d))) or 1.0
-        d2, w2 = d.copy(), w.copy()
+        d2, w2 = np.array(d, order="C"), np.array(w, order="C")  # C-ordered copies: ravel() below must be a view
         d2.ravel()[i] = case["outlier"] * dmax
         w2.ravel()[i] = 1e-14 * float(w.min())
         keep = np.ones(d.size, dtype=bool)
